@@ -790,14 +790,14 @@ let readout_py ps slots =
     (to_arg (snd ip) (Some (nth (fst ip) slots None)))))
     (combine (seq O (length ps)) ps)
 
-(** val missing_kwonly : param list -> 'a1 option list -> bool **)
+(** val missing_kwonly : nat -> param list -> 'a1 option list -> bool **)
 
-let missing_kwonly ps slots =
+let missing_kwonly co_argcount kwonly slots =
   existsb (fun ip ->
     (&&) (negb (snd ip).p_def)
       (match nth (fst ip) slots None with
        | Some _ -> false
-       | None -> true)) (combine (seq O (length ps)) ps)
+       | None -> true)) (combine (seq co_argcount (length kwonly)) kwonly)
 
 (** val bind_py : sig0 -> 'a1 call -> 'a1 outcome **)
 
@@ -821,7 +821,7 @@ let bind_py s c =
      else let m = sub co_argcount (length (optional (positional_args s))) in
           if none_in slots' argcount m
           then TypeErr EMissingPos
-          else if missing_kwonly ps slots'
+          else if missing_kwonly co_argcount s.s_kwonly slots'
                then TypeErr EMissingKw
                else Bound ((readout_py ps slots'), star, kwdict'))
 
@@ -896,5 +896,5 @@ let call_py s c =
 (** val wf_entry : bool -> path -> bool **)
 
 let wf_entry vc = function
-| PDict -> true
-| _ -> vc
+| PTuple -> vc
+| _ -> true
